@@ -141,6 +141,8 @@ def gen_tok_shape(source, chain):
     lines.append("            match t {")
     lines.append("                'v' => { let p = build!(); let r = p.collect_into(oldv); r_list(r.iter().map(|x| x.v()).collect()) }")
     lines.append("                's' => { let mut sv = SplitVec::new(); for x in oldv { sv.push(x); } let p = build!(); let r = p.collect_into(sv); r_list(r.iter().map(|x| x.v()).collect()) }")
+    lines.append("                'g' => { let mut fv = FixedVec::new(oldv.len() + c.input.len().max(1)); for x in oldv { fv.push(x); } let p = build!(); let r = p.collect_into(fv); r_list(r.iter().map(|x| x.v()).collect()) }")
+    lines.append("                'w' => { let mut vv = Vec::with_capacity(oldv.len() + (c.input.len() / 2).max(1)); for x in oldv { vv.push(x); } let p = build!(); let r = p.collect_into(vv); r_list(r.iter().map(|x| x.v()).collect()) }")
     lines.append("                _ => { let mut fv = FixedVec::new(oldv.len().max(1)); for x in oldv { fv.push(x); } let p = build!(); let r = p.collect_into(fv); r_list(r.iter().map(|x| x.v()).collect()) }")
     lines.append("            }")
     lines.append("        }")
@@ -218,6 +220,8 @@ def gen_shape(source, chain):
     lines.append("            match t {")
     lines.append("                'v' => { let p = build!(); let r = p.collect_into(oldv); r_list(r.iter().map(|x| x.v()).collect()) }")
     lines.append("                's' => { let mut sv = SplitVec::new(); for x in oldv { sv.push(x); } let p = build!(); let r = p.collect_into(sv); r_list(r.iter().map(|x| x.v()).collect()) }")
+    lines.append("                'g' => { let mut fv = FixedVec::new(oldv.len() + c.input.len().max(1)); for x in oldv { fv.push(x); } let p = build!(); let r = p.collect_into(fv); r_list(r.iter().map(|x| x.v()).collect()) }")
+    lines.append("                'w' => { let mut vv = Vec::with_capacity(oldv.len() + (c.input.len() / 2).max(1)); for x in oldv { vv.push(x); } let p = build!(); let r = p.collect_into(vv); r_list(r.iter().map(|x| x.v()).collect()) }")
     lines.append("                _ => { let mut fv = FixedVec::new(oldv.len().max(1)); for x in oldv { fv.push(x); } let p = build!(); let r = p.collect_into(fv); r_list(r.iter().map(|x| x.v()).collect()) }")
     lines.append("            }")
     lines.append("        }")
